@@ -13,7 +13,7 @@ LEVEL = "proof"
 DEEP_FALLBACK = True
 EXPLANATION = "Two-state contracts on every operation that touches Callback.active + the stack lemma; callback dispatch inside get_async through ghost flags."
 TRUSTED = ["VC generator /verif/vf", "z3 5.1 / z3 4.8.12", "ASSUMED: the body of `with local_callbacks()` restores Callback.active (stack property; induction on nesting)", "ASSUMED: user callbacks do not modify Callback.active or scheduler state"]
-ASSUMPTIONS = ["callback objects are hashable and compared by identity of their 5-tuple", "re-entering the same Callback object while it is already entered overwrites its _cm (not a nesting of contexts; excluded)"]
+ASSUMPTIONS = ["callback objects are hashable and compared by identity of their 5-tuple"]
 NATIVE_COVERS = {q: ["add_callbacks.__exit__"] for q in ("local_callbacks", "add_callbacks.__init__", "add_callbacks.__exit__", "Callback.__enter__", "Callback.__exit__", "Callback.register", "Callback.unregister")}
 NATIVE_COVERS.update({q: ["get_async"] for q in ("get_async", "get_async.fire_tasks")})
 
